@@ -571,7 +571,7 @@ Section Basic.
 
   (* the body of BasicParser once the record to fill is known *)
   Definition bp_start (baseUrl : option url) (override : option state) (u : url) : result :=
-    let '(i, changed) := remove_tabnl (u_input u) in
+    let '(i, changed) := remove_tabnl_sv (c_acceptInvalid c) (u_input u) in
     let k (u : url) : result :=
       let inp := decode (u_input u) in
       run idna_raw c inp (option_map clone baseUrl) override (fuel_of (length inp))
@@ -615,7 +615,7 @@ Section Basic.
     { intros u1 Hu1. split.
       - apply run_Post; [exact Hbase'|]. apply (init_J w _ override u0); assumption.
       - apply run_never_out_of_fuel. }
-    destruct (remove_tabnl (u_input u)) as [i changed]. cbv zeta.
+    destruct (remove_tabnl_sv (c_acceptInvalid c) (u_input u)) as [i changed]. cbv zeta.
     destruct changed; [|apply Hk; assumption].
     pose proof (sh_handleError c u InvalidURLUnit false) as Hh.
     destruct (handleError c u InvalidURLUnit false) as [u' [e|]]; cbn [fst] in Hh.
@@ -646,7 +646,7 @@ Section Basic.
   Proof.
     rewrite BasicParser_eq.
     assert (H : forall u, bp_start baseUrl override u <> ROutOfFuel).
-    { intros u. unfold bp_start. destruct (remove_tabnl (u_input u)) as [i ch]. cbv zeta.
+    { intros u. unfold bp_start. destruct (remove_tabnl_sv (c_acceptInvalid c) (u_input u)) as [i ch]. cbv zeta.
       destruct ch; [|apply run_never_out_of_fuel].
       destruct (handleError c u InvalidURLUnit false) as [u' [e|]]; [discriminate | apply run_never_out_of_fuel]. }
     destruct u0 as [u|]; [apply H|]. cbv zeta.
